@@ -16,7 +16,7 @@
     the text of the `CalledProcessError`.
 
   The PRIMITIVE EFFECTS (`call`, `spCall`, `hook`, `exit`, `dotDirExists`, `rewriteFiles`,
-  `branchMatches`, `excStr`) are the trusted reading of `VCSAPI.__call__` (subprocess), `sp.call`,
+  `branchMatches`, `excStr`, `excStderr`) are the trusted reading of `VCSAPI.__call__` (subprocess), `sp.call`,
   `hooks.run`, `sys.exit`, `os.path.exists`, `rewrite_files`, `BRANCH_RE.finditer`, `str(ex)`; they are
   listed with their Python counterparts in harness/TRANSLATE_EFFECTS.md.  No Mathlib.
 -/
@@ -69,6 +69,7 @@ structure EffEnv where
   output : String → Str                    -- what subcommand `name` prints when it succeeds
   branchMatches : Str → List GroupDict     -- `[m.groupdict() for m in BRANCH_RE.finditer(text)]`
   excText : Str                            -- `str(ex)` of the CalledProcessError of the failing invocation
+  excStderr : Str                          -- its `.stderr` (what the VCS itself wrote; `None` = empty)
   osErrno : Int                            -- `err.errno` of an OSError (none is ever raised by the oracle)
 
 abbrev Eff (α : Type) := EffEnv → PState → PState × Except Stop α
@@ -148,6 +149,11 @@ def branchMatches (text : Str) : Eff (List GroupDict) := fun e s => (s, .ok (e.b
 
 /-- `str(ex)` -/
 def excStr (_ex : Stop) : Eff Str := fun e s => (s, .ok e.excText)
+
+/-- `ex.stderr` of the caught CalledProcessError: `None` when nothing was captured, else the bytes
+    (modelled as `Str`) -/
+def excStderr (_ex : Stop) : Eff (Option Str) := fun e s =>
+  (s, .ok (if e.excStderr.isEmpty then none else some e.excStderr))
 
 /-- `err.errno` -/
 def excErrno (_ex : Stop) : Eff Int := fun e s => (s, .ok e.osErrno)
